@@ -138,7 +138,10 @@ func (c *Ctx) anyRuleText() (string, *Node) {
 type c07Case struct {
 	Rule string   `json:"rule_hex"`
 	Objs []string `json:"objs"`
+	Deep int      `json:"deep,omitempty"` // > 0: the attribute x of the (only) object is a chain of that many nested pointers
 }
+
+type deepNode struct{ Next *deepNode }
 
 func c07Judge(rule string, objs []*AV) (what string, detail string) {
 	ev, err, esc := newEvaluator(rule)
@@ -208,6 +211,10 @@ func checkC07(c *Ctx) {
 	for i := 0; i < n; i++ {
 		cases = append(cases, gen())
 	}
+	if c.Tier == "quick" {
+		// an acyclic value nested millions deep (a chain of pointers): placed last, it costs two seconds and a gigabyte of stack
+		cases = append(cases, c07Case{Rule: hx("x eq 1"), Objs: []string{"O 0"}, Deep: 3000000})
+	}
 	c.runC07Children(cases)
 }
 
@@ -242,13 +249,14 @@ func (c *Ctx) runC07Children(cases []c07Case) {
 			close(lines)
 		}()
 		cur := start - 1
+		ended := start - 1 // index of the last case the child reported as finished
 		died := false
 	loop:
 		for {
 			select {
 			case l, ok := <-lines:
 				if !ok {
-					died = cur+1 < len(cases) || cur < start
+					died = cur+1 < len(cases) || cur < start || ended != cur
 					break loop
 				}
 				switch {
@@ -256,6 +264,7 @@ func (c *Ctx) runC07Children(cases []c07Case) {
 					cur, _ = strconv.Atoi(l[6:])
 					cur += start
 				case strings.HasPrefix(l, "END "):
+					ended = cur
 					c.Res.Evaluations++
 					if strings.HasSuffix(l, " nontrivial") {
 						c.nontrivial(cases[cur].Rule, strings.Join(cases[cur].Objs, "|"))
@@ -284,9 +293,15 @@ func (c *Ctx) runC07Children(cases []c07Case) {
 		for _, o := range cs.Objs {
 			objs = append(objs, avFromProto(o).Pretty())
 		}
-		c.violate(Violation{What: "the process died or hung inside a public call (fatal runtime error, deadlock or endless loop)", Rule: unhx(cs.Rule), RuleHex: cs.Rule,
+		v := Violation{What: "the process died or hung inside a public call (fatal runtime error, deadlock or endless loop)", Rule: unhx(cs.Rule), RuleHex: cs.Rule,
 			Object: strings.Join(objs, " ; then "), ObjProto: strings.Join(cs.Objs, " | "), Kind: "history",
-			Demand: "NewEvaluator, Process (repeatedly on one evaluator), Evaluate, LastDebugErr and Error() all return normally", Go: "child process killed after 20 s without progress or exited abnormally"})
+			Demand: "NewEvaluator, Process (repeatedly on one evaluator), Evaluate, LastDebugErr and Error() all return normally", Go: "child process killed after 20 s without progress or exited abnormally"}
+		if cs.Deep > 0 {
+			v.Key = "C07:value-nested-deeper-than-the-goroutine-stack"
+			v.Object = fmt.Sprintf("{x: a chain of %d nested pointers (type node struct{ Next *node })}", cs.Deep)
+			v.Go = "LastDebugErr().Error() -> encoding/json recurses once per level: fatal error: stack overflow (goroutine stack exceeds the 1 GB limit); the process is killed"
+		}
+		c.violate(v)
 		start = cur + 1
 	}
 }
@@ -307,6 +322,25 @@ func childC07() {
 		var objs []*AV
 		for _, o := range cs.Objs {
 			objs = append(objs, avFromProto(o))
+		}
+		if cs.Deep > 0 {
+			var head *deepNode
+			for k := 0; k < cs.Deep; k++ {
+				head = &deepNode{Next: head}
+			}
+			if ev, _, _ := newEvaluator(rule); ev != nil {
+				func() {
+					defer func() { recover() }()
+					ev.Process(map[string]interface{}{"x": head})
+					if d := ev.LastDebugErr(); d != nil {
+						_ = d.Error()
+					}
+				}()
+			}
+			fmt.Fprintf(w, "END %d\n", i)
+			w.Flush()
+			i++
+			continue
 		}
 		what, detail := c07Judge(rule, objs)
 		nt := ""
